@@ -103,21 +103,21 @@ CHECKS = {
 
 FULL_STACK = " A further scenario runs 2-5 complete Discv5 nodes (public API, service, handler, sessions, tables, query pool, receive path; all honest) on the virtual network with drop / duplicate / delay / bit-flip / late-replay / partition / node-restart faults and tiny session caches or short session lifetimes as per-run knobs"
 EXTRA = {
-    "C01": " Each challenge justifies one session only; genuine handshakes are sometimes damaged in their message part and re-presented repeatedly. In a third of the runs a genuine peer lies about who it is after an honest handshake: it answers the handler's own record request (FINDNODE [0] to a contact dialled without a record) with a validly signed record of another identity.",
-    "C02": " Exploration also lets a party with keys of its own answer a WHOAREYOU in the challenged peer's name from the peer's address.",
+    "C01": " A second scenario runs the service world of C12: who-are-you queries for table nodes (undecryptable packets claiming them) must not change their entries. A fifth of the handler runs use an IPv6-only network. Each challenge justifies one session only; genuine handshakes are sometimes damaged in their message part and re-presented repeatedly. In a third of the runs a genuine peer lies about who it is after an honest handshake: it answers the handler's own record request (FINDNODE [0] to a contact dialled without a record) with a validly signed record of another identity.",
+    "C02": " Explored runs: a fifth on an IPv6-only network, peers advertising another port, datagrams presented from the sender's IP on another port or from the advertised socket. Exploration also lets a party with keys of its own answer a WHOAREYOU in the challenged peer's name from the peer's address.",
     "C03": " Exploration also presents WHOAREYOU and handshake datagrams from the sender's IP on another UDP port and delivers damaged genuine handshakes repeatedly, and holds genuine handshakes back until around or past the expiry of the challenge they answer while further undecryptable packets in the sender's name arrive.",
     "C04": " A fifth of the runs use an IPv6-only network; bit flips and late replays are part of the network profile. Session-cache capacity (1-2) and session lifetime (0.3-5 s) are per-run knobs, so sessions are evicted or expire in mid-exchange.",
     "C09": " The pool world also checks the query timeout itself (a poll that examined every query must not leave one in the pool that is past the timeout)." + FULL_STACK + ": every API future must return within a bound after the faults stop.",
     "C10": FULL_STACK + ": every find_node result is checked at the API (distinct, not the local node, increasing distance, at most 16, each id belongs to a node that put a NODES response to the caller on the wire).",
-    "C11": FULL_STACK + ": the ban list must stay empty.",
+    "C11": " ban_duration is the default, 10 min or None." + FULL_STACK + ": the ban list must stay empty.",
     "C12": " On real handlers the adversary's own identity is known to the victim with a lower, equal or higher sequence number than the record its handshake attaches (a held record is replaced only by a strictly newer one). Record shapes include an IPv4 address without UDP port. The identity world includes a peer presenting another identity's record in answer to the handler's own record request.",
     "C13": " A lower bound is checked as well (transmitted requests without outcome, from the request-transmission log). Session-cache capacity and lifetime are per-run knobs; a banned-peer-bypass scenario checks that an exemption really lets a banned peer's answer through and nothing else." + FULL_STACK + ": all exemption maps must be empty once every API call returned and the address has been silent for a timeout.",
-    "C14": FULL_STACK + ": every NODES and PONG on the wire is decrypted with the key log and checked (requested distances only, never the requester's record, only table entries or the own record, PONG reports the requester's address and the current sequence number).",
-    "C15": " A third scenario combines both: a full cache in which one session expires (its peer possibly crashed, the expired entry possibly looked up again) must drop that one, not a live one, when a new peer arrives.",
-    "C16": " Operations are aimed at the current pending candidate more often than chance. An eighth of the IPv4 records carry an address without a UDP port, another eighth IPv4 and IPv6 endpoints together.",
-    "C17": " Every SocketUpdated event must announce an address the record now advertises. Dual-stack mode (per-family votes) is included.",
+    "C14": " PING sources are IPv4, IPv6 and IPv4-mapped addresses with ports from the whole range; the local record is sometimes updated before a PING; record sizes vary at byte granularity." + FULL_STACK + ": every NODES and PONG on the wire is decrypted with the key log and checked (requested distances only, never the requester's record, only table entries or the own record, PONG reports the requester's address and the current sequence number).",
+    "C15": " The victim's application sometimes answers only after the session a request came in on has expired; a fifth of the runs use IPv6. A third scenario combines both: a full cache in which one session expires (its peer possibly crashed, the expired entry possibly looked up again) must drop that one, not a live one, when a new peer arrives.",
+    "C16": " The node listens on IPv4, IPv6 only or both. Operations are aimed at the current pending candidate more often than chance. An eighth of the IPv4 records carry an address without a UDP port, another eighth IPv4 and IPv6 endpoints together.",
+    "C17": " PINGs to voters sometimes time out (their unexpired votes stand). Every SocketUpdated event must announce an address the record now advertises. Dual-stack mode (per-family votes) is included.",
     "C19": FULL_STACK + ": the same uniqueness oracle over all nodes' traffic.",
-    "C20": " Payloads may be explicitly empty. The application may sit on requests for 50 ms to 10 min of simulated time." + FULL_STACK + ": TALKRESP packets on the wire never outnumber the TalkRequest events, carry a payload the application produced, and match the events in number at the end (unless the node restarted or its handler dropped a response for lack of a session).",
+    "C20": " Payloads may be explicitly empty; the application sometimes panics while holding a request. The application may sit on requests for 50 ms to 10 min of simulated time." + FULL_STACK + ": TALKRESP packets on the wire never outnumber the TalkRequest events, carry a payload the application produced, and match the events in number at the end (unless the node restarted or its handler dropped a response for lack of a session).",
 }
 
 NOT_APPLICABLE = {
